@@ -198,7 +198,7 @@ func newWorldB(p *Plan, out *Outcome, o bOpts) *worldB {
 			TraceIdFieldNames:      []string{"trace.trace_id", "traceId"},
 			ParentIdFieldNames:     []string{"trace.parent_id", "parentId"},
 			AddRuleReasonToTrace:   true,
-			GetGeneralConfigVal:    config.GeneralConfig{ConfigReloadInterval: 0},
+			GetGeneralConfigVal:    config.GeneralConfig{ConfigReloadInterval: config.Duration(5 * time.Minute)}, // non-zero: the watcher suppresses re-publishing (MockConfig.Reload always reports a change)
 		}
 		w.nodes = append(w.nodes, n)
 	}
